@@ -69,9 +69,22 @@ func genHistory(t *rapid.T, withRemoval bool) *World {
 		removedDone = append(removedDone, removing...)
 		removing = nil
 	}
+	created := 0
 	n := rapid.IntRange(6, 22).Draw(t, "historyLen")
 	for i := 0; i < n; i++ {
-		switch rapid.SampledFrom([]string{"newAddress", "mine", "mine", "mine", "reorg", "deliver", "deliver", "deliver", "remove", "lateImport", "serve", "settle", "mempoolTx", "mempoolTx", "redeliverTx", "importBurst", "reimport"}).Draw(t, "hact") {
+		switch rapid.SampledFrom([]string{"newAddress", "mine", "mine", "mine", "reorg", "deliver", "deliver", "deliver", "remove", "lateImport", "serve", "settle", "mempoolTx", "mempoolTx", "redeliverTx", "importBurst", "reimport", "createWallet"}).Draw(t, "hact") {
+		case "createWallet":
+			// a brand-new wallet (random entropy: its id differs from run to run, the comparison knows)
+			if created >= 2 || w.taskPending(t) {
+				continue
+			}
+			created++
+			w.record(hstep{Kind: "create", N: created})
+			if _, _, _, err := w.env.W.CreateWallet(createdWalletPass, "c", 128); err != nil {
+				t.Fatalf("CreateWallet: %v", err)
+			}
+			w.flag("create-wallet")
+			w.logf("wallet #%d created", created)
 		case "mempoolTx":
 			// an unconfirmed transaction reaches the wallet (it may later confirm, be double-spent by a
 			// block, or stay pending)
@@ -361,7 +374,17 @@ func observe(t *rapid.T, env *sim.Env) []string {
 // it). Histories contain unconfirmed transactions so that their processing is crashed / faulted like
 // everything else, but the pending set itself is left out of the comparison (C09 decides it).
 func comparable(obs []string, script []hstep) []string {
-	var out []string
+	known := map[string]bool{}
+	for _, st := range script {
+		if (st.Kind == "import" || st.Kind == "importJSON") && st.Keys != nil {
+			known[st.Keys.ID] = true
+		}
+	}
+	// blocks: a "wallet <id> ..." header with its indented detail lines; wallets that no import of the
+	// script brought in were created from random entropy - their ids differ from run to run and are
+	// replaced by a placeholder, then the blocks are ordered again
+	var head []string
+	var blocks [][]string
 	for _, l := range obs {
 		if strings.HasPrefix(l, "pending ") {
 			continue
@@ -369,7 +392,32 @@ func comparable(obs []string, script []hstep) []string {
 		if i := strings.Index(l, " spentByPending="); i >= 0 {
 			l = l[:i]
 		}
-		out = append(out, l)
+		switch {
+		case strings.HasPrefix(l, "wallet "):
+			blocks = append(blocks, []string{l})
+		case strings.HasPrefix(l, "  ") && len(blocks) > 0:
+			blocks[len(blocks)-1] = append(blocks[len(blocks)-1], l)
+		default:
+			head = append(head, l)
+		}
+	}
+	for _, b := range blocks {
+		f := strings.Fields(b[0])
+		if len(f) < 2 || known[f[1]] {
+			continue
+		}
+		id := f[1]
+		for i := range b {
+			b[i] = strings.ReplaceAll(b[i], id, "<created wallet>")
+			if len(id) >= 8 {
+				b[i] = strings.ReplaceAll(b[i], id[:8], "<created>")
+			}
+		}
+	}
+	sort.SliceStable(blocks, func(i, j int) bool { return strings.Join(blocks[i], "\n") < strings.Join(blocks[j], "\n") })
+	out := head
+	for _, b := range blocks {
+		out = append(out, b...)
 	}
 	return out
 }
@@ -431,6 +479,7 @@ type replayer struct {
 	tipAnn bool
 	log    []string
 	closed bool
+	known  map[string]bool // wallet ids the script's imports bring in (everything else listed was created)
 	// C06: the live restart itself is crashed after this many further commits (0 = not)
 	liveCrashAfter int64
 	liveCrashes    int
@@ -451,7 +500,7 @@ func newReplayer(t *rapid.T, ctl *xdb.Ctl) *replayer {
 	if err := env.StartStepped(); err != nil {
 		t.Fatalf("HARNESS: %v", err)
 	}
-	r := &replayer{node: node, env: env, ctl: ctl, tipAnn: true, issued: map[string]int{}}
+	r := &replayer{node: node, env: env, ctl: ctl, tipAnn: true, issued: map[string]int{}, known: map[string]bool{}}
 	t.Cleanup(r.close)
 	return r
 }
@@ -495,6 +544,28 @@ func (r *replayer) walletsLine() string {
 		fmt.Fprintf(&sb, "%s ready=%v removing=%v status=%+v; ", s.WalletID[:10], s.Status.Ready(), s.Status.IsRemoved(), *s.Status)
 	}
 	return sb.String()
+}
+
+const createdWalletPass = "pw9Xcreated1"
+
+// countCreated counts the listed wallets that no import of the script accounts for.
+func (r *replayer) countCreated(t *rapid.T) int {
+	for try := 0; try < 7; try++ {
+		wl, err := r.env.W.Wallets()
+		if err != nil {
+			r.log = append(r.log, fmt.Sprintf("Wallets -> %v", err))
+			continue
+		}
+		n := 0
+		for _, s := range wl {
+			if !r.known[s.WalletID] {
+				n++
+			}
+		}
+		return n
+	}
+	t.Fatalf("the wallet list cannot be read: %s", strings.Join(r.log, "\n  "))
+	return 0
 }
 
 func (r *replayer) taskPending() bool {
@@ -549,7 +620,24 @@ func (r *replayer) stepInner(t *rapid.T, s hstep) {
 				t.Fatalf("HARNESS: worker: %v", err)
 			}
 		}
+	case "create":
+		// state-based like the imports: afterwards at least s.N wallets exist that no import of the script
+		// brought in. A user whose request failed asks again; one whose process died looks at the list.
+		for try := 0; r.countCreated(t) < s.N; try++ {
+			_, _, _, err := r.env.W.CreateWallet(createdWalletPass, "c", 128)
+			if err == nil {
+				break
+			}
+			if r.ctl.Frozen() {
+				return
+			}
+			r.log = append(r.log, fmt.Sprintf("create -> %v", err))
+			if try >= 4 {
+				t.Fatalf("creating a wallet keeps failing after the storage fault is gone: %v\n  %s", err, strings.Join(r.log, "\n  "))
+			}
+		}
 	case "import":
+		r.known[s.Keys.ID] = true
 		for try := 0; ; try++ {
 			listed, _, removing := r.walletListed(t, s.Keys.ID)
 			if listed && removing && !r.ctl.Frozen() {
@@ -592,6 +680,7 @@ func (r *replayer) stepInner(t *rapid.T, s hstep) {
 			// a storage failure: the transaction is announced again (peers do that)
 		}
 	case "importJSON":
+		r.known[s.Keys.ID] = true
 		for try := 0; ; try++ {
 			if listed, _, _ := r.walletListed(t, s.Keys.ID); listed {
 				break
@@ -753,7 +842,7 @@ func propC18(t *rapid.T) {
 				from := ctl.Calls()
 				r.step(t, s)
 				switch s.Kind {
-				case "import", "importJSON", "newAddress", "remove":
+				case "import", "importJSON", "newAddress", "remove", "create":
 					userOps = append(userOps, [2]int64{from - base + 1, ctl.Calls() - base})
 					if s.Kind != "newAddress" {
 						bigOps = append(bigOps, len(userOps)-1)
